@@ -157,6 +157,59 @@ def bernsteinSum (n : Nat) (t : Rat) : Nat → List V3 → V3
 
 def bernsteinCurve (ps : List V3) (t : Rat) : V3 := bernsteinSum (ps.length - 1) t 0 ps
 
+/-! ### `curvetools.split_bezier` (de Casteljau, any degree) -/
+
+/-- one de Casteljau level: `tuple(points[i] * (1.0 - t) + points[i + 1] * t for i in range(n))` -/
+def lerpStep (t : Rat) : List V3 → List V3
+  | a :: b :: r => ((a.scale (1 - t)).add (b.scale t)) :: lerpStep t (b :: r)
+  | _ => []
+
+/-- the inner recursive `split(points)`: `left.append(points[0]); right.append(points[n]); if n == 0: return;
+    split(next level)`; the recursion depth (= number of points) is the fuel -/
+def splitBezierAux (t : Rat) : Nat → List V3 → List V3 × List V3
+  | 0, _ => ([], [])
+  | fuel + 1, pts =>
+    match pts with
+    | [] => ([], [])
+    | p :: rest =>
+      let lr := splitBezierAux t fuel (lerpStep t (p :: rest))
+      (p :: lr.1, rest.getLastD p :: lr.2)
+
+inductive SplitErr where
+  | tooFew      -- ValueError("2 or more control points required")
+  | range       -- ValueError("parameter `t` must be in range [0, 1]")
+  deriving DecidableEq, Repr
+
+/-- `split_bezier(control_points, t)`: `(left, right)`; QUIRK: `right` is collected from the END of the curve towards
+    the split point, i.e. the second curve runs backwards -/
+def splitBezier (pts : List V3) (t : Rat) : Except SplitErr (List V3 × List V3) :=
+  if pts.length < 2 then .error .tooFew
+  else if t < 0 ∨ 1 < t then .error .range
+  else .ok (splitBezierAux t pts.length pts)
+
+/-! ### `curvetools.quadratic_to_cubic_bezier`, `curvetools.bezier_to_bspline` -/
+
+/-- `start + 2 * (control - start) / 3`, `end + 2 * (control - end) / 3` -/
+def quadToCubic (c : Bez3) : Bez4 :=
+  ⟨c.p0, c.p0.add (((c.p1.sub c.p0).scale 2).scale (1 / 3)), c.p2.add (((c.p1.sub c.p2).scale 2).scale (1 / 3)), c.p2⟩
+
+/-- the knot vector built by `bezier_to_bspline` for `n` curves: `[0,0,0,0]`, then `(k,k,k)` for `k = 1 … n-1`, then
+    `(n,n,n,n)` -/
+def bezierToBSplineKnots (n : Nat) : List Rat :=
+  [0, 0, 0, 0] ++ (List.range' 1 (n - 1)).flatMap (fun (k : Nat) => [(k : Rat), (k : Rat), (k : Rat)]) ++ [(n : Rat), (n : Rat), (n : Rat), (n : Rat)]
+
+/-- `bezier_to_bspline(curves)` for cubic curves (quadratic ones go through `quadToCubic` first): all points of the
+    first curve, then every following curve WITHOUT its first point; order 4 -/
+def bezierToBSpline : List Bez4 → Option (List V3 × List Rat)
+  | [] => none                                   -- ValueError("one or more Bézier curves required")
+  | c :: rest =>
+    some ([c.p0, c.p1, c.p2, c.p3] ++ rest.flatMap (fun d => [d.p1, d.p2, d.p3]), bezierToBSplineKnots (rest.length + 1))
+
+/-- "lined up seamlessly": the start point of every following curve is the end point of the previous one (decidable) -/
+def seamless : List Bez4 → Bool
+  | c :: d :: r => decide (c.p3 = d.p0) && seamless (d :: r)
+  | _ => true
+
 /-! ## B-spline basis (`Basis`) -/
 
 /-- `knots[i]` -/
@@ -166,6 +219,13 @@ def kget (k : List Rat) (i : Nat) : Rat := k.getD i 0
 def nondecreasing : List Rat → Bool
   | a :: b :: r => decide (a ≤ b) && nondecreasing (b :: r)
   | _ => true
+
+/-- "interior knot multiplicity up to the degree" (decidable): among the knots `U[1] … U[m-1]` no value occurs
+    `order` times, i.e. `U[j] < U[j + degree]` whenever both indices are interior (clamped end knots `U[0] = … = U[p]`
+    are allowed) -/
+def multLeDegree (knots : List Rat) (order : Nat) : Bool :=
+  (List.range knots.length).all (fun j =>
+    j = 0 || decide (knots.length - 1 < j + order) || decide (kget knots j < kget knots (j + (order - 1))))
 
 /-- `bisect.bisect_right(a, x, lo, hi)` and the hand rolled `bisect_right` of bspline.pyx (the same
     loop: `mid = (lo + hi) // 2; if x < a[mid]: hi = mid else: lo = mid + 1`) -/
@@ -238,6 +298,15 @@ def basisFuncsW (knots weights : List Rat) (order span : Nat) (u : Rat) : Option
   (basisFuncs knots order span u).map
     (fun N => if weights.isEmpty then N else spanWeighting weights order span N)
 
+/-- `Basis.basis_vector(t)`: the basis functions of the span, padded with zeros to `count` entries
+    (`[0.0] * front + basis + [0.0] * back`; a negative count gives the empty list, as Nat subtraction does) -/
+def basisVector (knots weights : List Rat) (order count : Nat) (u : Rat) : Option (List Rat) :=
+  match findSpan knots order count u with
+  | Int.ofNat span =>
+    (basisFuncsW knots weights order span u).map (fun N =>
+      List.replicate (span - (order - 1)) 0 ++ N ++ List.replicate (count - span - 1) 0)
+  | _ => none    -- negative span: IndexError / garbage in the code, outside the domain
+
 /-- `Σ_i N[i] * cps[first + i]` -/
 def combine : List Rat → List V3 → V3
   | n :: ns, p :: ps => (p.scale n).add (combine ns ps)
@@ -250,6 +319,102 @@ def evalPoint (knots weights : List Rat) (cps : List V3) (order : Nat) (u : Rat)
   match findSpan knots order count u with
   | Int.ofNat span =>
     (basisFuncsW knots weights order span u).map (fun N => combine N (cps.drop (span + 1 - order)))
+  | _ => none
+
+/-! ### derivatives of the basis functions (`Basis.basis_funcs_derivatives`, The NURBS Book A2.3) and of the curve
+    (`Evaluator.derivative`, A3.2 / A4.2) -/
+
+/-- first loop nest of A2.3: all stages of the triangular scheme, `ndu[r][j]` (upper triangle, diagonal included) is
+    entry `r` of stage `j`; the arithmetic per stage is that of A2.2 (`temp = ndu[r][j-1] / ndu[j][r]` with the lower
+    triangle entry `ndu[j][r] = right[r+1] + left[j-r]`).  `none` = ZeroDivisionError. -/
+def basisStagesAll (L R : Nat → Rat) : Nat → Nat → List Rat → Option (List (List Rat))
+  | _, 0, N => some [N]
+  | j, n + 1, N => (basisInner L R j 0 0 N).bind (fun M => (basisStagesAll L R (j + 1) n M).map (N :: ·))
+
+/-- the table `ndu[row][col]` after the first loop nest -/
+def nduAt (L R : Nat → Rat) (tbl : List (List Rat)) (row col : Nat) : Rat :=
+  if row ≤ col then (tbl.getD col []).getD row 0 else R (col + 1) + L (row - col)
+
+/-- `a[s][i] = v` -/
+def setF (f : Nat → Rat) (i : Nat) (v : Rat) : Nat → Rat := fun j => if j = i then v else f j
+
+/-- body of `for k in range(1, n + 1)` for one function index `r`: returns `d` (= `derivatives[k][r]` before the final
+    scaling) and the row `a[s2]` it wrote; `as1`, `as2` are the rows `a[s1]`, `a[s2]` on entry -/
+def derStep (ndu : Nat → Nat → Rat) (p r k : Nat) (as1 as2 : Nat → Rat) : Rat × (Nat → Rat) :=
+  let rk : Int := (r : Int) - k
+  let pk := p - k
+  let st0 : (Nat → Rat) × Rat :=
+    if k ≤ r then
+      let v := as1 0 / ndu (pk + 1) (r - k)
+      (setF as2 0 v, v * ndu (r - k) pk)
+    else (as2, 0)
+  let j1 : Nat := if -1 ≤ rk then 1 else (-rk).toNat
+  let j2 : Nat := if (r : Int) - 1 ≤ pk then k - 1 else p - r
+  let st1 := (List.range' j1 (j2 + 1 - j1)).foldl (fun (acc : (Nat → Rat) × Rat) j =>
+      let v := (as1 j - as1 (j - 1)) / ndu (pk + 1) (rk + j).toNat
+      (setF acc.1 j v, acc.2 + v * ndu (rk + j).toNat pk)) st0
+  let st2 : (Nat → Rat) × Rat :=
+    if r ≤ pk then
+      let v := -(as1 (k - 1)) / ndu (pk + 1) r
+      (setF st1.1 k v, st1.2 + v * ndu r pk)
+    else st1
+  (st2.2, st2.1)
+
+/-- the `k` loop for one `r` (rows are swapped after every `k`): `ds` collects `derivatives[1..n][r]` -/
+def derLoopK (ndu : Nat → Nat → Rat) (p r : Nat) : Nat → Nat → (Nat → Rat) → (Nat → Rat) → List Rat × (Nat → Rat) × (Nat → Rat)
+  | _, 0, as1, as2 => ([], as1, as2)
+  | k, fuel + 1, as1, as2 =>
+    let st := derStep ndu p r k as1 as2
+    let rest := derLoopK ndu p r (k + 1) fuel st.2 as1      -- s1, s2 = s2, s1
+    (st.1 :: rest.1, rest.2.1, rest.2.2)
+
+/-- the `r` loop: the two rows of `a` are allocated ONCE and survive from one `r` to the next (`a[0][0] = 1.0` is the
+    only reset); result: for every `r` the list `derivatives[1..n][r]` (unscaled) -/
+def derLoopR (ndu : Nat → Nat → Rat) (p n : Nat) : List Nat → (Nat → Rat) → (Nat → Rat) → List (List Rat)
+  | [], _, _ => []
+  | r :: rs, row0, row1 =>
+    let res := derLoopK ndu p r 1 n (setF row0 0 1) row1
+    -- physical rows after n swaps
+    let phys := if n % 2 = 0 then (res.2.1, res.2.2) else (res.2.2, res.2.1)
+    res.1 :: derLoopR ndu p n rs phys.1 phys.2
+
+/-- final scaling `r = p; for k: derivatives[k][j] *= r; r *= (p - k)` : factor of row `k` -/
+def derFactor (p : Nat) : Nat → Rat
+  | 0 => 1
+  | k + 1 => derFactor p k * ((p : Rat) - k)
+
+/-- `Basis.basis_funcs_derivatives(span, u, n)` (both twins): rows `0 … min(n, p)`, each with `order` entries -/
+def basisFuncsDerivatives (knots : List Rat) (order span : Nat) (u : Rat) (n : Nat) : Option (List (List Rat)) :=
+  let p := order - 1
+  let n := min n p
+  let L := leftAt knots span u
+  let R := rightAt knots span u
+  (basisStagesAll L R 1 p [1]).map (fun tbl =>
+    let ndu := nduAt L R tbl
+    let cols := derLoopR ndu p n (List.range order) (fun _ => 1) (fun _ => 1)    -- cols[r][k-1]
+    ((List.range order).map (fun j => ndu j p)) ::
+      (List.range' 1 n).map (fun k => cols.map (fun col => col.getD (k - 1) 0 * derFactor p k)))
+
+/-- `Evaluator.derivative(u, n)` (A3.2, for weights A4.2): point and derivatives `0 … n`; the harness passes
+    `n <= degree` -/
+def evalDerivative (knots weights : List Rat) (cps : List V3) (order : Nat) (u : Rat) (n : Nat) : Option (List V3) :=
+  match findSpan knots order cps.length u with
+  | Int.ofNat span =>
+    (basisFuncsDerivatives knots order span u n).bind (fun ders =>
+      let pts := cps.drop (span + 1 - order)
+      if weights.isEmpty then
+        some ((List.range (n + 1)).map (fun k => combine (ders.getD k []) pts))
+      else
+        let ws := (weights.drop (span + 1 - order)).take order
+        let CKw := (List.range (n + 1)).map (fun k => combine (List.zipWith (· * ·) (ders.getD k []) ws) pts)
+        let wders := (List.range (n + 1)).map (fun k => (List.zipWith (· * ·) (ders.getD k []) ws).sum)
+        let w0 := wders.getD 0 0
+        if w0 = 0 then none
+        else
+          some ((List.range (n + 1)).foldl (fun (CK : List V3) k =>
+            let v := (List.range' 1 k).foldl (fun (v : V3) i =>
+              v.sub ((CK.getD (k - i) V3.zero).scale ((choose k i : Rat) * wders.getD i 0))) (CKw.getD k V3.zero)
+            CK ++ [v.scale (1 / w0)]) []))
   | _ => none
 
 /-! ### Cox - de Boor reference -/
@@ -293,6 +458,40 @@ def curveSum (f : Nat → Rat) : Nat → List V3 → V3
 def curveRef (U : List Rat) (cps : List V3) (p : Nat) (u : Rat) : V3 :=
   curveSum (coxDeBoor U u p) 0 cps
 
+/-! ### generic `Bezier` class (`bezier.py`, any number of definition points; documented for more than 2) -/
+
+/-- the parameter snapping of `Bezier.point` / `Bezier.derivative`: `if (1.0 - t) < 5e-6: t = 1.0` -/
+def bezSnap (t : Rat) : Rat := if 1 - t < 5 / 1000000 then 1 else t
+
+/-- `Bezier.point(t)`: `Σ bernstein_basis(n-1, i, t) * pts[i]` after the range check and the snapping -/
+def bezierPoint (pts : List V3) (t : Rat) : Option V3 :=
+  if t < 0 ∨ 1 < t then none            -- ValueError("Parameter t not in range [0, 1]")
+  else some (bernsteinCurve pts (bezSnap t))
+
+/-- coefficient of `pts[i]` in the first derivative for `0 < t < 1`: `(i - n0*t) / (t*(1-t)) * bernstein_basis` -/
+def bezD1Coeff (n0 : Nat) (t : Rat) (i : Nat) : Rat := ((i : Rat) - n0 * t) / (t * (1 - t)) * bernstein n0 i t
+
+/-- … in the second derivative: `((i-n0*t)² - n0*t² - i*(1-2t)) / (t²*(1-t)²) * bernstein_basis` -/
+def bezD2Coeff (n0 : Nat) (t : Rat) (i : Nat) : Rat :=
+  ((((i : Rat) - n0 * t) * ((i : Rat) - n0 * t) - n0 * (t * t) - i * (1 - 2 * t)) / (t * t * (1 - t) * (1 - t))) * bernstein n0 i t
+
+/-- `Bezier.derivative(t)`: `(point, 1st derivative, 2nd derivative)`; closed formulas at `t == 0` and `t == 1`, the
+    weighted Bernstein sums between -/
+def bezierDerivative (pts : List V3) (t : Rat) : Option (V3 × V3 × V3) :=
+  if t < 0 ∨ 1 < t then none
+  else
+    let t := bezSnap t
+    let n0 := pts.length - 1
+    let P := fun i => pts.getD i V3.zero
+    let point := bernsteinCurve pts t
+    if t = 0 then
+      some (point, ((P 1).sub (P 0)).scale n0, (((P 0).sub ((P 1).scale 2)).add (P 2)).scale ((n0 : Rat) * ((n0 - 1 : Nat) : Rat)))
+    else if t = 1 then
+      some (point, ((P n0).sub (P (n0 - 1))).scale n0,
+        (((P n0).sub ((P (n0 - 1)).scale 2)).add (P (n0 - 2))).scale ((n0 : Rat) * ((n0 - 1 : Nat) : Rat)))
+    else
+      some (point, curveSum (bezD1Coeff n0 t) 0 pts, curveSum (bezD2Coeff n0 t) 0 pts)
+
 /-! ## knot insertion, reversal (`BSpline.insert_knot`, `BSpline.reverse`) -/
 
 inductive InsErr where
@@ -327,6 +526,54 @@ def insertKnot (knots : List Rat) (cps : List V3) (order : Nat) (t : Rat) :
           .ok (cps.take (k + 1 - p) ++ qs ++ cps.drop k, knots.take (k + 1) ++ t :: knots.drop (k + 1))
     | _ => .error .valueError
 
+/-- `BSpline._insert_knot_rational(t)`: Boehm's formula on the homogeneous points `(x·w, y·w, z·w, w)`
+    (`to_homogeneous_points`), then back by `Vec3(point[:3]) / w` (`from_homogeneous_points`, ZeroDivisionError for a
+    new weight 0).  The numpy 4-vectors are read component-wise: the `xyz·w` part and the `w` part (carried in the
+    x-slot of a `V3`) go through the SAME `insertKnot`; result `(control points, weights, knots)` -/
+def insertKnotRational (knots weights : List Rat) (cps : List V3) (order : Nat) (t : Rat) :
+    Except InsErr (List V3 × List Rat × List Rat) :=
+  let H := List.zipWith (fun (v : V3) (w : Rat) => v.scale w) cps weights
+  let W := weights.map (fun w => (⟨w, 0, 0⟩ : V3))
+  match insertKnot knots H order t, insertKnot knots W order t with
+  | .ok (H', K'), .ok (W', _) =>
+    let w' := W'.map (·.x)
+    if w'.any (fun w => decide (w = 0)) then .error .zeroDivision
+    else .ok (List.zipWith (fun (h : V3) (w : Rat) => h.scale (1 / w)) H' w', w', K')
+  | .error e, _ => .error e
+  | _, .error e => .error e
+
+/-- `BSpline.knot_refinement(u)`: `for t in u: spline = spline.insert_knot(t)` (non rational); the first error
+    is propagated -/
+def knotRefinement (knots : List Rat) (cps : List V3) (order : Nat) : List Rat → Except InsErr (List V3 × List Rat)
+  | [] => .ok (cps, knots)
+  | t :: ts =>
+    match insertKnot knots cps order t with
+    | .ok (cps', knots') => knotRefinement knots' cps' order ts
+    | .error e => .error e
+
+/-- `BSpline.knot_refinement(u)` of a RATIONAL spline: `insert_knot` dispatches to `_insert_knot_rational` -/
+def knotRefinementRational (knots weights : List Rat) (cps : List V3) (order : Nat) :
+    List Rat → Except InsErr (List V3 × List Rat × List Rat)
+  | [] => .ok (cps, weights, knots)
+  | t :: ts =>
+    match insertKnotRational knots weights cps order t with
+    | .ok (cps', weights', knots') => knotRefinementRational knots' weights' cps' order ts
+    | .error e => .error e
+
+/-- `open_uniform_knot_vector(count, order, normalize)`: `[0.0]*order`, then `(1.0 + v)/max_value for v in range(count-order)`,
+    then the tail (`[1.0]*order` normalised, `[1.0 + k]*order` otherwise); the knots `BSpline.__init__` uses when none
+    are given (`normalize=True`) -/
+def openUniformKnots (count order : Nat) (normalize : Bool) : List Rat :=
+  let k := count - order
+  let maxValue : Rat := if normalize then ((count - order + 1 : Nat) : Rat) else 1
+  let tail : Rat := if normalize then 1 else 1 + (k : Rat)
+  List.replicate order 0 ++ (List.range k).map (fun (v : Nat) => (1 + (v : Rat)) / maxValue) ++ List.replicate order tail
+
+/-- `uniform_knot_vector(count, order, normalize)` -/
+def uniformKnots (count order : Nat) (normalize : Bool) : List Rat :=
+  let maxValue : Rat := if normalize then ((count + order - 1 : Nat) : Rat) else 1
+  (List.range (count + order)).map (fun (v : Nat) => (v : Rat) / maxValue)
+
 /-- `normalize_knots` -/
 def normalizeKnots (knots : List Rat) : List Rat :=
   let mn := kget knots 0
@@ -335,6 +582,79 @@ def normalizeKnots (knots : List Rat) : List Rat :=
 
 /-- the knot vector of `BSpline.reverse()`: `1.0 - k for k in reversed(normalize_knots(knots))` -/
 def reverseKnots (knots : List Rat) : List Rat := (normalizeKnots knots).reverse.map (fun k => 1 - k)
+
+/-- `BSpline.reverse()`: `BSpline(reversed(control_points), order, reverse_knots(), reversed(weights))`
+    (the new knot vector starts at `1 - 1 = 0`, the constructor does not rescale it) -/
+def reverseSpline (knots weights : List Rat) (cps : List V3) : List Rat × List Rat × List V3 :=
+  (reverseKnots knots, weights.reverse, cps.reverse)
+
+/-- the parameter of the reversed spline that belongs to `u`: `1 - (u - k_0)/(k_last - k_0)` -/
+def reverseParam (knots : List Rat) (u : Rat) : Rat := 1 - (u - kget knots 0) / (knots.getLastD 0 - kget knots 0)
+
+/-! ## `split_bspline` (`BSpline.split`) -/
+
+inductive BsErr where
+  | valueError        -- ValueError
+  | dxfValueError     -- DXFValueError
+  | zeroDivision
+  deriving DecidableEq, Repr
+
+/-- the checks and the knot normalisation of `BSpline.__init__` (knots given, no weights) -/
+def mkBSpline (cps : List V3) (order : Nat) (knots : List Rat) : Except BsErr (List V3 × List Rat) :=
+  if cps.length < order then .error .dxfValueError          -- "got {count} control points, need {order} or more"
+  else if knots.length ≠ cps.length + order then .error .valueError
+  else .ok (cps, if kget knots 0 ≠ 0 then normalizeKnots knots else knots)
+
+/-- `split_bspline(spline, t)` for a non rational spline: clamp at `t` by `knot_refinement([t] * order)`, cut the knot
+    vector at `np.searchsorted(knots, t, side="right")` (= `bisect_right` on the whole vector), give the second half
+    `order` copies of `t` in front, cut the control points at `len(knots1) - order`; both halves go through the
+    `BSpline` constructor (the second one is re-normalised to `[0, 1]`) -/
+def splitBSpline (knots : List Rat) (cps : List V3) (order : Nat) (t : Rat) :
+    Except BsErr ((List V3 × List Rat) × (List V3 × List Rat)) :=
+  let tol : Rat := 1 / 1000000000000
+  if t < tol then .error .valueError                               -- "t must be greater than 0"
+  else if knots.getLastD 0 - tol < t then .error .valueError        -- "t must be smaller than max_t"
+  else
+    match knotRefinement knots cps order (List.replicate order t) with
+    | .error .valueError => .error .dxfValueError
+    | .error .zeroDivision => .error .zeroDivision
+    | .ok (cps', knots') =>
+      let span := bisectRight knots' t 0 knots'.length
+      let idx := span - order
+      match mkBSpline (cps'.take idx) order (knots'.take span) with
+      | .error e => .error e
+      | .ok s1 =>
+        match mkBSpline (cps'.drop idx) order (List.replicate order t ++ knots'.drop span) with
+        | .error e => .error e
+        | .ok s2 => .ok (s1, s2)
+
+/-- `BSpline.__init__` with weights: additionally `Basis.__init__` raises ValueError("invalid weight count") -/
+def mkBSplineW (cps : List V3) (order : Nat) (knots weights : List Rat) : Except BsErr (List V3 × List Rat × List Rat) :=
+  if cps.length < order then .error .dxfValueError
+  else if knots.length ≠ cps.length + order then .error .valueError
+  else if weights.length ≠ 0 ∧ weights.length ≠ cps.length then .error .valueError
+  else .ok (cps, weights, if kget knots 0 ≠ 0 then normalizeKnots knots else knots)
+
+/-- `split_bspline(spline, t)` for a RATIONAL spline: as `splitBSpline`, the refinement goes through
+    `_insert_knot_rational` and the weights are cut like the control points -/
+def splitBSplineRational (knots weights : List Rat) (cps : List V3) (order : Nat) (t : Rat) :
+    Except BsErr ((List V3 × List Rat × List Rat) × (List V3 × List Rat × List Rat)) :=
+  let tol : Rat := 1 / 1000000000000
+  if t < tol then .error .valueError
+  else if knots.getLastD 0 - tol < t then .error .valueError
+  else
+    match knotRefinementRational knots weights cps order (List.replicate order t) with
+    | .error .valueError => .error .dxfValueError
+    | .error .zeroDivision => .error .zeroDivision
+    | .ok (cps', weights', knots') =>
+      let span := bisectRight knots' t 0 knots'.length
+      let idx := span - order
+      match mkBSplineW (cps'.take idx) order (knots'.take span) (weights'.take idx) with
+      | .error e => .error e
+      | .ok s1 =>
+        match mkBSplineW (cps'.drop idx) order (List.replicate order t ++ knots'.drop span) (weights'.drop idx) with
+        | .error e => .error e
+        | .ok s2 => .ok (s1, s2)
 
 /-! ## bulge (`bulge.py`) -/
 
